@@ -292,6 +292,8 @@ C04.vis: parts that are not PER-visible (X.691 10.3.21; a PATTERN constraint sta
     render(m, ctx, &consts);
     outer_marker(m, ctx);
     size_flag(m, ctx);
+    // an INTEGER's bounds are folded as signed (= C06.signed)
+    crate::rules::c06::signed_flag(m, ctx, "C04.signed");
     // "named numbers are resolved": in the governing type's scope (= C09.scope)
     crate::rules::c09::scope(m, ctx, "C04.scope");
 }
